@@ -129,7 +129,7 @@ type c01Job struct {
 
 func runC01(c *Ctx) {
 	r := c.Run
-	r.Rule("rule sets (singles over the full template alphabet × 7 HTTP kinds; ordered pairs over the reduced alphabet; annotation- and additional-binding-sourced variants) × request verbs × probe paths (every instantiation of every template ± one segment, verb suffix variants, ':' in every position, universal short paths); distinct = rule sets whose probes produced at least one dispatch")
+	r.Rule("rule sets (singles over the full template alphabet × 7 HTTP kinds; every 4-5 (thorough 6) segment template over {a, {v}, {v=a/*}; last: {v=**}, **} × verb suffix; ordered pairs over the reduced alphabet; annotation- and additional-binding-sourced variants) × request verbs × probe paths (every instantiation of every template ± one segment, verb suffix variants, ':' in every position, universal short paths); plus requests of 1..48 segments under ** rules and a 31-literal template, and literal segments of 62..1000 bytes; distinct = rule sets whose probes produced at least one dispatch")
 	r.Assume("values outside the segment alphabets {x,a,7} and percent-encoded paths are not explored", "requests carry no body and no query, so every set field is routing's doing")
 
 	var jobs []c01Job
@@ -161,6 +161,12 @@ func runC01(c *Ctx) {
 			}
 		}
 	}
+	// long templates: 4-5 (thorough 6) segments over a reduced alphabet
+	longMax := 5
+	if c.Thorough() {
+		longMax = 6
+	}
+	singles = append(singles, longTemplates(longMax)...)
 	kinds := c01Kinds
 	if !c.Thorough() {
 		kinds = []string{"get", "*"}
@@ -282,9 +288,16 @@ func runC01(c *Ctx) {
 	if !done {
 		r.CapHit("deadline or violation cap reached before all rule sets were probed")
 	}
+	// depth and length: 1..48 request segments under ** rules and a 31-literal template (the whole
+	// remainder is captured or the request is refused, never a shortened capture), literal
+	// segments of 62..1000 bytes (family shared with C02)
+	c02TokenLimit(c, base)
 }
 
 func replayC01(c *Ctx, v report.Violation) {
+	if replayTokenLimit(c, "C01", v) {
+		return
+	}
 	var tc c01Case
 	if !remarshal(v.Case, &tc) {
 		fmt.Println("replay: cannot decode case")
